@@ -547,11 +547,27 @@ func init() {
 						}
 						if f := ld.selField(tgt); f != nil && f.Name() == "BuildFlags" {
 							okA := as.Tok == token.ADD_ASSIGN
+							oneSep := false
 							if okA {
 								be, isB := ast.Unparen(as.Rhs[0]).(*ast.BinaryExpr)
-								okA = isB && be.Op == token.ADD && types.ExprString(be.X) == `" "`
+								okA = isB && be.Op == token.ADD
+								if okA {
+									tv, isC := ld.Info.Types[be.X]
+									okA = isC && tv.Value != nil && (tv.Value.ExactString() == `","` || tv.Value.ExactString() == `" "`)
+									// one separator throughout: a comma, before each single tag of the user's list split on both separators
+									if okA && tv.Value.ExactString() == `","` {
+										if v := ld.varOf(be.Y); v != nil {
+											for _, d := range ld.defs[v] {
+												if d.kind == "range-val" && ld.isCall(d.rhs, "strings.FieldsFunc") != nil {
+													oneSep = true
+												}
+											}
+										}
+									}
+								}
 							}
 							r.Check(okA, "load/tags-only-extended", as.Pos(), "user tags are appended to the wireinject tag, never replacing it")
+							r.Check(oneSep, "load/tags-one-separator", as.Pos(), "each user tag is appended after a comma, the list having been split on commas and spaces (the go tool rejects a list that mixes separators, which made the documented -tags a,b unusable)")
 						}
 					}
 					return true
@@ -894,7 +910,7 @@ func init() {
 			}
 		})
 
-	register("C19.R3", "set variables are visited: check/show evaluate every package-scope name whose type is wire.ProviderSet, whether or not an injector uses it, recording its errors",
+	register("C19.R3", "set variables are visited: check/show evaluate every package-scope variable whose type is wire.ProviderSet (and nothing else: a type alias for it is not a set), whether or not an injector uses it, recording its errors",
 		func(c *Ctx, r *R) {
 			fi := r.Need(c.Fn(c.W, "Load"), "Load")
 			if fi == nil {
@@ -916,12 +932,30 @@ func init() {
 				if get == nil {
 					return true
 				}
+				// the only filters: the object is a variable (a type alias for wire.ProviderSet has that type too), of ProviderSet type
 				gs := fi.GuardsWithin(get, rs.Body)
-				okG := len(gs) == 1 && !gs[0].Neg && fi.isCall(gs[0].Expr, pathW+".isProviderSetType") != nil
-				if len(gs) == 1 && gs[0].Neg {
-					// `if !isProviderSetType(...) { continue }` yields ¬¬ → flatten gives Neg=false; keep both forms
-					okG = fi.isCall(gs[0].Expr, pathW+".isProviderSetType") == nil
+				isSetType, isVar, other := false, false, 0
+				for _, g := range gs {
+					switch {
+					case !g.Neg && fi.isCall(g.Expr, pathW+".isProviderSetType") != nil:
+						isSetType = true
+					case !g.Neg && fi.varOf(g.Expr) != nil:
+						okV := false
+						for _, d := range fi.defs[fi.varOf(g.Expr)] {
+							if ta, isTA := ast.Unparen(d.rhs).(*ast.TypeAssertExpr); isTA && d.idx == 1 && types.ExprString(ta.Type) == "*types.Var" {
+								okV = true
+							}
+						}
+						if okV {
+							isVar = true
+						} else {
+							other++
+						}
+					default:
+						other++
+					}
 				}
+				okG := isSetType && isVar && other == 0
 				lk := fi.isCall(fi.deref(get.Args[0]), "go/types.Scope.Lookup")
 				okL := lk != nil && fi.varOf(lk.Args[0]) == fi.varOf(rs.Value)
 				okExit := true
@@ -934,7 +968,7 @@ func init() {
 				}
 				return true
 			})
-			r.Check(ok, "Load/every-set-variable", fi.Decl.Pos(), "for every name in the package scope of ProviderSet type, oc.get is called (no other filter, no early exit)")
+			r.Check(ok, "Load/every-set-variable", fi.Decl.Pos(), "for every VARIABLE in the package scope of ProviderSet type, oc.get is called (no other filter, no early exit)")
 			// isProviderSetType: named type ProviderSet of the wire package
 			ip := r.Need(c.Fn(c.W, "isProviderSetType"), "isProviderSetType")
 			if ip != nil {
